@@ -80,6 +80,40 @@ def rankdef_term(case, observe, tables, sel, mode=3):
         mat(tables["phi"]), mat_cols(obs_of(case)), sseq([cnatm(j) for j in sel]), mat(observe["coef"]), vec(observe["resid"]))
 
 
+def svd_term(case, observe, tables, svd):
+    """Coq term num_svd ...: the cached SVD factors against the contract svd_spec and the code-shaped solve"""
+    if svd is None or svd.get("u") is None or svd.get("vt") is None or observe["coef"] is None or tables["phi"] is None:
+        return None
+    mats = [svd["u"], svd["vt"], tables["phi"], observe["coef"]]
+    if not all(all_finite_mat(x) for x in mats) or not all(is_finite_hex(h) for h in svd["s"]):
+        return None
+    m = case["meta"]
+    w = weights_of(case)
+    cu2, floor2, _ = params_for(case["scalar"])
+    return "num_svd %s %s %s %s %s %s %s %s %s %s %s %s" % (
+        cu2, floor2, qfr(eps_of(case)), cnatm(m["N"]), cnatm(m["M"]), "None" if w is None else "(Some %s)" % vec(w),
+        mat(tables["phi"]), mat_cols(obs_of(case)), mat(svd["u"]), vec(svd["s"]), mat(svd["vt"]), mat(observe["coef"]))
+
+
+def jac_impl_term(case, observe, tables, svd, jac):
+    if svd is None or svd.get("u") is None or jac is None or observe["coef"] is None or any(d is None for d in tables["d"]):
+        return None
+    mats = [svd["u"], observe["coef"], jac] + list(tables["d"])
+    if not all(all_finite_mat(x) for x in mats):
+        return None
+    m = case["meta"]
+    w = weights_of(case)
+    cu2, floor2, _ = params_for(case["scalar"])
+    return "num_jac_impl %s %s %s %s %s %s %s %s %s" % (
+        cu2, floor2, cnatm(m["N"]), cnatm(m["M"]), "None" if w is None else "(Some %s)" % vec(w), mat(svd["u"]),
+        sseq([mat(d) for d in tables["d"]]), mat(observe["coef"]), mat(jac))
+
+
+SVD_CODES = {2: "shapes", 40: "U^T U is not the identity", 41: "V^T V^T^T is not the identity",
+             42: "U diag(sigma) V^T does not reconstruct the weighted basis matrix", 43: "negative singular value",
+             44: "coefficients are not V diag(sigma_i > eps ? 1/sigma_i : 0) U^T (W Y) for the cached factors and the configured threshold"}
+
+
 def weights_of(case):
     ws = [o for o in case["build"] if o[0] == "weights"]
     if not ws:
